@@ -35,7 +35,8 @@ def jobs(tier):
         sh = sched.shapes(2, maxtop=2, maxleaves=3, always=True)
     else:
         sh = sched.shapes(3, maxtop=3, maxleaves=4, always=True)
-    return [("C30", s, nc) for s in sh for nc in (0, 1, 2)]
+    sweep = [("C30", s, 1, "sweep") for s in [("L",), ("L", "L"), (("D", True, ("L",)),), (("D", False, ("L", "L")),)]]
+    return [("C30", s, nc) for s in sh for nc in (0, 1, 2)] + sharded(sweep, 8)
 
 
 def view(w):
@@ -45,7 +46,7 @@ def view(w):
 
 def harness(job, ch):
     shape, ncomp = job[1], job[2]
-    base = sched.run(("C30", shape), ch, mode=MODE)
+    base = sched.run(("C30", shape) + tuple(x for x in job[3:] if x == "sweep"), ch, mode=MODE)
     cfg = (base.T, base.start, base.limit)
     kmap = dict(base.kindsel)
     spins = [0]
